@@ -95,6 +95,14 @@ CLAIMED["C02"] = (
     "pandas/pyarrow 1-D factorizers and drop_duplicates/get_indexer assumed by contract (factorize_1d stubbed); chunk-local codes/pointer tables under C13/C03",
     "DESIGN.md 4 C02")
 
+CLAIMED["C20"] = (
+    "nanops.nansum/nanmean/nanmin/nanmax/count equal the NumPy nan-function semantics for every float64/int64 array of length <= 4 (6) with "
+    "symbolic values and NaN placement and every thread count 1..4 (8, incl. more threads than elements: every array read carries a bounds "
+    "obligation); column/row-wise sum/min/max on shapes <= 3x3; nanvar/nanstd as polynomial identities against the two-pass definition per "
+    "enumerated null pattern; nb_dot(a,b) = a @ b for shapes <= 3x3; decided by the solver on the real source",
+    "bools_to_categorical and pretty_cut (pandas/string code), the min_count branch and datetime converters are outside; exact arithmetic",
+    "DESIGN.md 4 C20")
+
 NOT_APPLICABLE = {
     "C11": "labelling/order/shape are decided entirely by pandas Index/MultiIndex/DataFrame operations (C extension semantics); nothing symbolic to quantify over within reach of the encoder (DESIGN.md 5)",
     "C14": "margins and crosstab are reindex/groupby(level)/concat/unstack on pandas objects; not encodable (DESIGN.md 5)",
